@@ -26,7 +26,9 @@ def t3(rep, tier, seed):
 def run(rep, tier, seed):
     rep.level = "exploration"
     rep.assume("A1", "A4", "A6", "A8")
-    D.run_static(rep, "C11", ("clock", "purity"), only_files=("complete_greedy.py", "cbldm.py", "complete_karmarkar_karp_sy.py", "karmarkar_karp_sy.py"))
+    D.run_static(rep, "C11", ("clock", "purity"))
     D.run_contracts(rep, "C11", D.c11(), tier)
+    # "with no limit the result is optimal": the whole-search contracts of complete greedy (shared with C02)
+    D.run_contracts(rep, "C11", [("contracts.exact", n) for n in ("cg_difference", "cg_minmax", "cg_maxmin")], tier, also=("C02",), only_tagged=True)
     t3(rep, tier, seed)
     D.link_falsifier(rep)
